@@ -83,13 +83,15 @@ Qed.
 (* walking through decode_object without unfolding the flow combinators: cbn reduces them as their heads reduce *)
 Ltac walk :=
   repeat (cbn -[str_eqb Str str_of_Z Z.pow shift_or dict_get ts_to_dt ts_to_date];
-          match goal with
-          | |- context [match ?x with _ => _ end] =>
-              lazymatch x with
-              | context [match _ with _ => _ end] => fail
-              | _ => destruct x eqn:?
-              end
-          end);
+          first [ match goal with H : forall v : value, gen_decode_object _ _ v = _ |- _ => rewrite H end
+                | match goal with
+                  | |- context [match ?x with _ => _ end] =>
+                      lazymatch x with
+                      | context [match _ with _ => _ end] => fail
+                      | _ => destruct x eqn:?
+                      end
+                  end
+                | progress unfold bind, fl_bind ]);
   cbn -[str_eqb Str str_of_Z Z.pow shift_or dict_get ts_to_dt ts_to_date]; auto; try congruence.
 
 Local Open Scope string_scope.
@@ -108,19 +110,35 @@ Proof.
   intros rec_ f l H. induction l as [|[k x] t IH]; [reflexivity|]. cbn [map_result map fst snd]. rewrite IH, !H. reflexivity.
 Qed.
 
+Ltac dec_common args :=
+  code "R"; [destruct args as [|a0 [|a1 rest]]; walk|]; code "r"; [destruct args as [|a0 [|a1 rest]]; walk|];
+  code "D"; [destruct args as [|a0 [|a1 rest]]; unfold p_ts_to_dt; walk|];
+  code "d"; [destruct args as [|a0 rest]; unfold p_ts_to_date; walk|];
+  code "E"; [destruct args as [|a0 rest]; unfold p_decode_args; walk|].
+Ltac dec_tail args :=
+  code "l"; [unfold p_reflookup; walk|].
+Ltac dec_end args := code "P"; [walk|]; code "C"; [walk|]; code "U"; destruct args; walk.
+
 Theorem bridge_decode : forall n v, gen_decode_object orc n v = Ok (decode_f orc n v).
 Proof.
   induction n as [|n IH]; intros v.
-  - destruct v; try (cbn; reflexivity).
-    + destruct l as [|c args]; [cbn; reflexivity|]. destruct c; try (cbn; reflexivity).
-      cbn -[str_eqb Str str_of_Z Z.pow shift_or dict_get ts_to_dt ts_to_date].
-      code "R"; [destruct args as [|a0 [|a1 rest]]; walk|]. code "r"; [destruct args as [|a0 [|a1 rest]]; walk|].
-      code "D"; [destruct args as [|a0 [|a1 rest]]; unfold p_ts_to_dt; walk|].
-      code "d"; [destruct args as [|a0 rest]; unfold p_ts_to_date; walk|].
-      code "E"; [destruct args as [|a0 rest]; unfold p_decode_args; walk|].
-      code "L"; [destruct args; walk|]. code "l"; [unfold p_reflookup; walk|].
-      code "O"; [destruct args as [|d rest]; [walk|]; destruct d; try (walk; fail); destruct l; walk|].
-      code "P"; [walk|]. code "C"; [walk|]. code "U"; destruct args; walk.
-Abort.
+  - destruct v; try (cbn; reflexivity);
+      (destruct l as [|c args]; [cbn; reflexivity|]; destruct c; try (cbn; reflexivity);
+       cbn -[str_eqb Str str_of_Z Z.pow shift_or dict_get ts_to_dt ts_to_date];
+       dec_common args; (code "L"; [destruct args; walk|]); dec_tail args;
+       (code "O"; [destruct args as [|d rest]; [walk|]; destruct d; try (walk; fail); destruct l; walk|]);
+       dec_end args).
+  - destruct v; try (cbn; reflexivity);
+      (destruct l as [|c args]; [cbn; reflexivity|]; destruct c; try (cbn; reflexivity);
+       cbn -[str_eqb Str str_of_Z Z.pow shift_or dict_get ts_to_dt ts_to_date];
+       dec_common args;
+       (code "L"; [rewrite (map_result_ext (fun v_item => gen_decode_object orc n v_item) (fun x => Ok (decode_f orc n x)) args IH),
+                           map_result_ok_map; destruct args; walk|]);
+       dec_tail args;
+       (code "O"; [destruct args as [|d rest]; [walk|]; destruct d; try (walk; fail);
+                   cbn -[str_eqb Str str_of_Z Z.pow shift_or dict_get ts_to_dt ts_to_date];
+                   rewrite (dict_items_dec (gen_decode_object orc n) (decode_f orc n) l IH); destruct l; walk|]);
+       dec_end args).
+Qed.
 
 End Bridge.
